@@ -5,7 +5,7 @@
    (PotentialThms.unc_ok: the floor-free case).  phi s t = ncancel t - sum of _pending_uncancellations of the
    scopes hosted by t. *)
 From Coq Require Import ZArith.
-From AV Require Import Base Machine ScopeFrames DeliverInv TreeInv DeliverAlive PotentialInv TreeStep KernelInv DeliverThms PotentialThms.
+From AV Require Import Base Machine ScopeFrames DeliverInv TreeInv DeliverAlive PotentialInv TreeStep KernelInv DeliverThms PotentialThms CycleThms.
 
 (* the three RuntimeError guards of __exit__: otherwise nothing changes *)
 Theorem C05_scope_exit_guarded : forall s c t exc,
@@ -95,10 +95,35 @@ Theorem C05_leftover_deliver_runs_once : forall s c,
 Proof. exact leftover_deliver_runs_once. Qed.
 Print Assumptions C05_leftover_deliver_runs_once.
 
-(* loop_goes_idle, partial: when all tasks are done a delivery callback that runs does not keep itself alive
-   (the bound on the remaining callbacks and the timer clause are not proved) *)
-Theorem C05_loop_goes_idle_partial : forall s c,
+(* when all tasks are done a delivery callback that runs does not keep itself alive *)
+Theorem C05_done_delivery_not_rescheduled : forall s c,
   reach_ok s -> (forall t, k_done (tasks s t) <> None) -> In (HDeliver c) (ready s) ->
   s_chandle (scopes (fst (step s (ARun (HDeliver c)))) c) = false.
 Proof. exact loop_goes_idle_partial. Qed.
-Print Assumptions C05_loop_goes_idle_partial.
+Print Assumptions C05_done_delivery_not_rescheduled.
+
+(* loop_goes_idle.  run_head s = run the head of the ready queue (step s (ARun h)); identity on an empty queue.
+   all_done s = every task record is in control state CDone and every allocated task has its outcome set.
+   Once every task is done, running heads empties the ready queue within 3 * length (ready s) runs: a delivery
+   callback never re-schedules itself and is dropped, no deadline callback is in the queue (every scope is
+   inactive, and an inactive scope has neither a deadline timer nor a fired deadline callback), a task-done callback may schedule up to two wake-ups (the group's exit waiter and the
+   handle's waiter; these resume done tasks, which is a no-op), a sleep-timer callback one.  No timer is added
+   meanwhile, and every timer left is a sleep timer: no deadline timer of any scope remains.  (That no sleep
+   timer of a finished task remains is not claimed: the model has no ownership link from timers to tasks.) *)
+Theorem C05_loop_goes_idle : forall s,
+  reach_ok s -> all_done s ->
+  exists k, k <= 3 * length (ready s) /\
+            ready (iter k run_head s) = [] /\
+            incl (timers (iter k run_head s)) (timers s) /\
+            (forall x, In x (timers (iter k run_head s)) -> exists f, tm_what x = TSleep f).
+Proof. exact loop_goes_idle. Qed.
+Print Assumptions C05_loop_goes_idle.
+
+(* the premises are satisfiable with a leftover callback: the root task cancels and leaves its deadline scope
+   and finishes; the delivery callback of the scope is still scheduled and one head run removes it *)
+Theorem C05_loop_goes_idle_nonvacuous :
+  let s := final step init
+             [ANewRoot; ANewScope 1 (Some 5%Z) false; AEnter 1 1; ACancel 1 1; AExit 1 1 false; AFinish 1 0] in
+  reach_ok s /\ all_done s /\ ready s = [HDeliver 1] /\ ready (run_head s) = [] /\ timers (run_head s) = [].
+Proof. exact idle2_premises. Qed.
+Print Assumptions C05_loop_goes_idle_nonvacuous.
